@@ -65,6 +65,8 @@ def msets(tier):
         out = []
         for k in range(1, kmax + 1):
             out += multisets(6, k)
+        if tier == "quick":
+            out += multisets(4, 4)          # the smallest inputs with two separate multi-member runs
         _C[tier] = out
     return _C[tier]
 
@@ -77,7 +79,7 @@ def shards(tier):
     n = len(msets(tier))
     step = 16 if tier == "quick" else 64
     out = [("merge", ci, i, min(i + step, n)) for ci in range(len(CRITERIA)) for i in range(0, n, step)]
-    n3 = len([m for m in msets(tier) if len(m) <= 3])
+    n3 = len([m for m in msets(tier) if len(m) <= 3 or tier == "quick"])
     out += [("db", None, i, min(i + 8, n3)) for i in range(0, n3, 8)]
     return out
 
@@ -238,12 +240,13 @@ def body_merge(ch, ctx):
 
 def body_db(ch, ctx):
     _, _, i0, i1 = ctx.shard
-    m3 = [m for m in msets(ctx.tier) if len(m) <= 3]
+    m3 = [m for m in msets(ctx.tier) if len(m) <= 3 or ctx.tier == "quick"]
     ms = ch.choose("multiset", m3[i0:i1])
     op = ch.choose("operation", ("merge_all", "merge_all_exclude", "children_bp", "children_bp_merge"))
+    file_order = ch.choose("file_order", ("ascending", "descending"))
     lines = ["c1\ts\tmRNA\t1\t9\t.\t+\t.\tID=t1"]
-    for i, (s, e) in enumerate(ms):
-        lines.append("c1\ts\texon\t%d\t%d\t.\t+\t.\tID=x%d;Parent=t1" % (s, e, i))
+    exon_lines = ["c1\ts\texon\t%d\t%d\t.\t+\t.\tID=x%d;Parent=t1" % (s, e, i) for i, (s, e) in enumerate(ms)]
+    lines += exon_lines if file_order == "ascending" else exon_lines[::-1]
     wd = ctx.fresh_dir()
     path = dbutil.write_text(wd, "in.gff", "\n".join(lines) + "\n")
     db = gffutils.create_db(path, os.path.join(wd, "o.db"), verbose=False)
